@@ -173,6 +173,7 @@ let handle_cmd (w : string list) =
   | ["closefs"] -> (match op_close (st ()) with Ok s -> set s; print_string "ok\n" | Err e -> fail e)
   | ["dump"; path] -> dump_dev path; print_string "ok\n"
   | ["fat"] -> let s = st () in Printf.printf "ok hint=%d %s\n" (int_of_z (s_hint s)) (list_str (s_fat s))
+  | ["fatsig"] -> let s = st () in Printf.printf "ok %d %d %s\n" (int_of_z (s_hint s)) (List.length (s_fat s)) (Digest.to_hex (Digest.string (list_str (s_fat s))))
   (* ---- function level ---- *)
   | ["f.ser_date"; y; m; d] -> Printf.printf "ok %d\n" (int_of_z (Gen.serialize_date (zi y) (zi m) (zi d)))
   | ["f.ser_time"; h; m; s] -> Printf.printf "ok %d\n" (int_of_z (Gen.serialize_time (zi h) (zi m) (zi s)))
@@ -207,6 +208,25 @@ let handle_cmd (w : string list) =
        | Ok ((((((((p, num_sec), spc), rootent), rsvd), f16), f32), t16), t32) ->
       Printf.printf "ok num_sec=%d spc=%d rootent=%d rsvd=%d fatsz=%d rds=%d f16=%d f32=%d t16=%d t32=%d\n" (int_of_z num_sec) (int_of_z spc)
         (int_of_z rootent) (int_of_z rsvd) (int_of_z p._fat_size) (int_of_z p.root_dir_sectors) (int_of_z f16) (int_of_z f32) (int_of_z t16) (int_of_z t32))
+  | ["f.mkfs_sweep"; t; ss; nf; lo; hi; step] ->
+      (* search the generated mkfs arithmetic for a sector count whose geometry violates the specification *)
+      let ti = int_of_string t and ssi = int_of_string ss and nfi = int_of_string nf in
+      let bad = ref None and n = ref (int_of_string lo) and checked = ref 0 and okc = ref 0 in
+      while !bad = None && !n <= int_of_string hi do
+        (match Gen.mkfs_geometry pf_init (zi t) (z_of_int (!n * ssi)) (zi ss) (zi nf) with
+         | Err _ -> ()
+         | Ok ((((((((p, num_sec), spc), rootent), rsvd), f16), f32), t16), t32) ->
+             incr okc;
+             let ns = int_of_z num_sec and spc = int_of_z spc and fsz = int_of_z p._fat_size and rds = int_of_z p.root_dir_sectors and rsvd = int_of_z rsvd in
+             let count = (ns - (rsvd + rds + nfi * fsz)) / spc in
+             let cap = fsz * ssi * 8 / ti in
+             let type_ok = (ti = 12 && count < 4085) || (ti = 16 && count >= 4085 && count < 65525) || (ti = 32 && count >= 65525) in
+             if cap < count + 2 || not type_ok || count < 1 || (ti <> 32 && fsz > 65535) then bad := Some (!n, count, cap, fsz, spc));
+        incr checked; n := !n + int_of_string step
+      done;
+      (match !bad with
+       | None -> Printf.printf "ok none checked=%d accepted=%d\n" !checked !okc
+       | Some (n, count, cap, fsz, spc) -> Printf.printf "ok bad sectors=%d count=%d fat_capacity=%d fatsz=%d spc=%d checked=%d\n" n count cap fsz spc !checked)
   | ["f.seek_cursor"; o; fs; b] -> let ((bp, ci), co) = Gen.seek_cursor (zi o) (zi fs) (zi b) in Printf.printf "ok %d %d %d\n" (int_of_z bp) (int_of_z ci) (int_of_z co)
   | ["f.make_lfn"; u; sfn] ->
       let sl = make_lfn (units_of_hex u) (bytes_of_hex sfn) in
